@@ -75,8 +75,21 @@ def generate(rng, focus, tier="quick"):
                 pr = int(pr)                       # a whole price handed over as a Python int
                 last[a] = float(pr)
             ops.append({"k": "append", "sig": rng.choice(KINDS), "asset": a, "price": pr})
-    return {"world": NAME, "cfg": {"assets": assets, "lookbacks": lookbacks, "dynamic": dynamic,
-                                   "entries": entries, "start": start}, "ops": ops}
+    cfg = {"assets": assets, "lookbacks": lookbacks, "dynamic": dynamic, "entries": entries, "start": start}
+    if rng.random() < 0.3 and n_assets > 1:
+        # the signals of one collection built on DIFFERENT universe objects
+        per = {}
+        for k in KINDS:
+            if rng.random() < 0.5:
+                per[k] = {"dynamic": False, "assets": sorted(rng.sample(assets, rng.randrange(1, n_assets + 1)))}
+            else:
+                ent = {}
+                for a in assets:
+                    r = rng.random()
+                    ent[a] = (start - DAY) if r < 0.4 else ((start + rng.randrange(0, 20) * DAY + rng.choice([0, CLOSE_S])) if r < 0.9 else None)
+                per[k] = {"dynamic": True, "entries": ent}
+        cfg["per_signal"] = per
+    return {"world": NAME, "cfg": cfg, "ops": ops}
 
 
 def ref_value(kind, hist, n):
@@ -118,21 +131,30 @@ def _run(plan, ctx):
     cfg = plan["cfg"]
     assets = list(cfg["assets"])
     start = cfg["start"]
+    def make_universe(dynamic, ent, members):
+        if dynamic:
+            return DynamicUniverse(dict((a, (ts(e) if e is not None else None)) for a, e in ent.items())), dict(ent)
+        return StaticUniverse(list(members)), dict((a, (start - DAY if a in members else None)) for a in assets)
     if cfg["dynamic"]:
-        uni = DynamicUniverse(dict((a, (ts(e) if e is not None else None)) for a, e in cfg["entries"].items()))
-        entries = cfg["entries"]
+        uni, entries = make_universe(True, cfg["entries"], None)
     else:
-        uni = StaticUniverse(list(assets))
-        entries = dict((a, start - DAY) for a in assets)
+        uni, entries = make_universe(False, None, assets)
+    unis = dict((k, uni) for k in KINDS)
+    entries_k = dict((k, entries) for k in KINDS)
+    if cfg.get("per_signal"):
+        ctx.fault("signals_on_different_universe_objects")
+        for k in KINDS:
+            spec = cfg["per_signal"][k]
+            unis[k], entries_k[k] = make_universe(spec["dynamic"], spec.get("entries"), spec.get("assets"))
     qb = QuoteBook()
     S = ts(start)
     lbs = cfg["lookbacks"]
-    sigs = {"mom": MomentumSignal(S, uni, list(lbs["mom"])),
-            "sma": SMASignal(S, uni, list(lbs["sma"])),
-            "vol": VolatilitySignal(S, uni, list(lbs["vol"]))}
+    sigs = {"mom": MomentumSignal(S, unis["mom"], list(lbs["mom"])),
+            "sma": SMASignal(S, unis["sma"], list(lbs["sma"])),
+            "vol": VolatilitySignal(S, unis["vol"], list(lbs["vol"]))}
     coll = SignalsCollection(dict(sigs), qb)
     hist = dict(((k, a), []) for k in KINDS for a in assets)
-    member = dict((k, set(a for a in assets if entries.get(a) is not None and entries[a] <= start)) for k in KINDS)
+    member = dict((k, set(a for a in assets if entries_k[k].get(a) is not None and entries_k[k][a] <= start)) for k in KINDS)
     has_buffer = dict((k, set(member[k])) for k in KINDS)
     prev = {}
     n_updates = 0
@@ -155,8 +177,9 @@ def _run(plan, ctx):
                     hx = fhex(got)
                     state = "empty" if not h else ("warm" if len(h) < n + (0 if k == "sma" else 1) else (
                         "full" if len(h) == n + (0 if k == "sma" else 1) else "rolled"))
-                    ctx.sig(zlib.crc32(("%s|%d|%d|%s|%s|%s" % (k, n, min(len(h), n + 2), state, cfg["dynamic"],
-                                                               entries.get(a, 0) is not None and entries.get(a, 0) > start)).encode()))
+                    ek = entries_k[k].get(a)
+                    ctx.sig(zlib.crc32(("%s|%d|%d|%s|%s|%s|%s" % (k, n, min(len(h), n + 2), state, cfg["dynamic"],
+                                                                  ek is not None and ek > start, bool(cfg.get("per_signal")))).encode()))
                     if want is not None:
                         scale = max(abs(want), 1.0) if k != "sma" else abs(want)
                         # the tolerance follows the conditioning of the *current* window: while an observation many
@@ -209,7 +232,7 @@ def _run(plan, ctx):
             n_updates += 1
             for k in KINDS:
                 for a in assets:
-                    e = entries.get(a)
+                    e = entries_k[k].get(a)
                     if e is not None and e <= t:
                         if a not in member[k]:
                             ctx.probe("asset_entered_dynamic_universe")
